@@ -75,6 +75,14 @@ def tokens_outside_quotes(text):
     return canon(tree)
 
 
+def set_order_insensitive(t):
+    """tokens_outside_quotes, with white-space runs inside quotes read as one
+    blank: writing the elements of a set in another order also moves the line
+    breaks inside wrapped text strings."""
+    t = re.sub(r'"[^"]*"|\'[^\']*\'', lambda m: re.sub(r"\s+", " ", m.group(0)), t)
+    return tokens_outside_quotes(t)
+
+
 def cycle(rec, pvl, t0, src, wit0, rng):
     st, m1 = load(pvl, "default", t0, parser=pvl.parser.OmniParser())
     if st != "ok":
@@ -147,7 +155,7 @@ def cycle(rec, pvl, t0, src, wit0, rng):
                           {**feats, "exc": type(e).__name__}, wit, repr(e)[:200])
             continue
         if t1 != t2:
-            same = "{" in t1 and tokens_outside_quotes(t1) == tokens_outside_quotes(t2)
+            same = "{" in t1 and set_order_insensitive(t1) == set_order_insensitive(t2)
             if not same:
                 wit["t2"] = t2[:1500]
                 rec.violation(CHECK, dialect, "second-dump-differs",
